@@ -121,7 +121,7 @@ func c05StressOn(a lib.Args, res *lib.Result, strat string) error {
 		for pi, ph := range phases {
 			key := fmt.Sprintf("hot-%d-%d", round, pi)
 			path := "/bkt/" + key
-			shapes := [][]string{{"m0", "ctype"}, {"m0"}, {"m0", "ctype", "cdisp"}}
+			shapes := [][]string{{"m0", "ctype"}, {"m0"}, {"m0", "ctype", "cdisp"}, {"m0", "tags"}, {"m0", "ctype", "tags"}}
 			newWrite := func(r *lib.Rand) c05Write {
 				n := 48
 				if !ph.sameLen {
@@ -153,10 +153,14 @@ func c05StressOn(a lib.Args, res *lib.Result, strat string) error {
 						case x < 35:
 							op.Kind, op.W = "C", newWrite(r)
 							src := fmt.Sprintf("/bkt/src-%d", op.W.ID)
-							if rsp := do(g, gw.Req{Method: "PUT", Path: src, Body: op.W.body(), Headers: op.W.headers()}); rsp.Status != 200 {
+							if rsp := do(g, gw.Req{Method: "PUT", Path: src, Body: op.W.body(), Headers: c05NoTagging(op.W.headers())}); rsp.Status != 200 {
 								continue
 							}
-							q = gw.Req{Method: "PUT", Path: path, Headers: []gw.Header{{K: "x-amz-copy-source", V: src[1:]}}}
+							hs := []gw.Header{{K: "x-amz-copy-source", V: src[1:]}}
+							if op.W.has("tags") {
+								hs = append(hs, gw.Header{K: "x-amz-tagging-directive", V: "REPLACE"}, gw.Header{K: "x-amz-tagging", V: op.W.tagging()})
+							}
+							q = gw.Req{Method: "PUT", Path: path, Headers: hs}
 						case x < 40:
 							op.Kind, op.W = "M", newWrite(r)
 							rsp := do(g, gw.Req{Method: "POST", Path: path, Query: "uploads=", Headers: op.W.headers()})
